@@ -9,18 +9,20 @@ import (
 
 // zzGroup is an abstract prime-order group standing in for the curve in protocol-level
 // harnesses: the cyclic group Z_q (additive), generator 1. A non-identity element d is
-// represented by the "point" (d, d XOR 0x5555), the identity by (0,0) as the library
-// represents infinity. The real Sm2Sign/Sm2Verify/Verify/Encrypt/Decrypt run unchanged on
+// represented by the "point" (B + d, B + (d XOR 0x5555)) with B = 2^24 (so every coordinate has
+// exactly four significant bytes and byte-string lengths stay concrete), the identity by (0,0)
+// as the library represents infinity. The real Sm2Sign/Sm2Verify/Verify/Encrypt/Decrypt run unchanged on
 // it because they take the curve from the key.
 type zzGroup struct {
 	params *elliptic.CurveParams
 }
 
 const zzMask = 0x5555
+const zzBase = 1 << 24
 
 func zzNewGroup(q int64) *zzGroup {
 	return &zzGroup{params: &elliptic.CurveParams{N: big.NewInt(q), P: big.NewInt(q), B: big.NewInt(0),
-		Gx: big.NewInt(1), Gy: big.NewInt(1 ^ zzMask), BitSize: 17, Name: "zzGroup"}}
+		Gx: big.NewInt(zzBase + 1), Gy: big.NewInt(zzBase + (1 ^ zzMask)), BitSize: 17, Name: "zzGroup"}}
 }
 
 func (g *zzGroup) Params() *elliptic.CurveParams { return g.params }
@@ -39,8 +41,8 @@ func (g *zzGroup) dlog(x, y *big.Int) (int64, bool) {
 	if xv == 0 && yv == 0 {
 		return 0, true
 	}
-	if xv >= 1 && xv < g.q() && yv == xv^zzMask {
-		return xv, true
+	if xv > zzBase && xv < zzBase+g.q() && yv == zzBase+((xv-zzBase)^zzMask) {
+		return xv - zzBase, true
 	}
 	return 0, false
 }
@@ -49,7 +51,7 @@ func (g *zzGroup) point(d int64) (*big.Int, *big.Int) {
 	if d == 0 {
 		return new(big.Int), new(big.Int)
 	}
-	return big.NewInt(d), big.NewInt(d ^ zzMask)
+	return big.NewInt(zzBase + d), big.NewInt(zzBase + (d ^ zzMask))
 }
 
 func (g *zzGroup) IsOnCurve(x, y *big.Int) bool {
